@@ -63,6 +63,24 @@ Guard2(c) == Begin(<<Let("R", c), PrintS(<<Str("="), V("R")>>)>>, <<When("OTHERS
 DeepProgs == { DeepDefs \o <<Guard2(UCall("DP", <<I(a), I(1)>>)), Guard2(UCall("RR", <<I(b)>>)), Guard2(UCall("DP", <<I(c), I(d)>>)), PrintS(<<Str("end")>>)>>
                  : a \in {0, 200}, b \in {1, 150}, c \in {0, 100, 241}, d \in {1, 30} }
 
+\* a function called from inside the argument list of a call of itself (the callee's context is taken while the
+\* arguments are being bound), after earlier calls have completed; conditionally assigned locals; Ackermann's shape
+NestDefs == <<
+  Func("ADD", <<"A", "B">>, <<Return(Bin("+", V("A"), V("B")))>>),
+  Func("TAGN", <<"N">>, <<If(Bin(">", V("N"), I(100)), <<Let("W", Str("big"))>>, <<>>), If(Call("isnull", <<V("W")>>), <<Let("W", Str("small"))>>, <<>>),
+                          Return(V("W"))>>),
+  Func("ACK", <<"M", "N">>, <<If(Bin("==", V("M"), I(0)), <<Return(Bin("+", V("N"), I(1)))>>, <<>>),
+                               If(Bin("==", V("N"), I(0)), <<Return(UCall("ACK", <<Bin("-", V("M"), I(1)), I(1)>>))>>, <<>>),
+                               Return(UCall("ACK", <<Bin("-", V("M"), I(1)), UCall("ACK", <<V("M"), Bin("-", V("N"), I(1))>>)>>))>>),
+  Func("FOP", <<"X">>, <<Return(Call("isnull", <<V("X")>>))>>) >>
+NestPool == << UCall("ADD", <<I(1), I(2)>>), UCall("ADD", <<I(1), UCall("ADD", <<I(2), I(3)>>)>>), UCall("ADD", <<UCall("ADD", <<I(1), I(2)>>), UCall("ADD", <<I(3), I(4)>>)>>),
+               UCall("TAGN", <<I(7)>>), UCall("TAGN", <<I(500)>>), UCall("TAGN", <<Bin("+", I(50), Mem(UCall("TAGN", <<I(500)>>), "count", <<>>))>>),
+               UCall("ACK", <<I(1), I(1)>>), UCall("ACK", <<I(2), I(2)>>) >>
+NestProgs == {NestDefs \o <<Guard2(NestPool[a]), Guard2(NestPool[b]), Guard2(NestPool[c]), PrintS(<<Str("end")>>)>> : a \in DOMAIN NestPool, b \in DOMAIN NestPool, c \in DOMAIN NestPool}
+\* a variable holding a typed null given to an untyped parameter, then inspected again by the caller
+NullArgProgs == {NestDefs \o <<Let("NI", Call(k, <<>>)), PrintS(<<UCall("FOP", <<V("NI")>>), Call("isnull", <<V("NI")>>), Call("isnull", <<V("NI")>>), Call("typeof", <<V("NI")>>)>>),
+                               PrintS(<<UCall("FOP", <<NullC>>), Call("isnull", <<NullC>>)>>)>> : k \in {"int", "str", "num", "bool"}}
+
 \* a function body cannot see the caller's variables: such a definition is not a valid program
 Rejects == {"H = 5;\nfunction FX(A) return undefined is begin return H; end;",
             "H = 5;\nfunction FX(A) return undefined is begin H2 = H + A; return H2; end;"}
@@ -70,6 +88,7 @@ Rejects == {"H = 5;\nfunction FX(A) return undefined is begin return H; end;",
 VARIABLE p
 Init == p \in {[kind |-> "hist", m |-> HProg(h, o)] : h \in Histories, o \in DOMAIN CallPool}
               \cup {[kind |-> "loop", m |-> x] : x \in LoopProgs} \cup {[kind |-> "rec", m |-> x] : x \in RecProgs \cup DeepProgs}
+              \cup {[kind |-> "nest", m |-> x] : x \in NestProgs \cup NullArgProgs}
               \cup {[kind |-> "reject", m |-> <<>>, t |-> x] : x \in Rejects}
 Next == UNCHANGED p
 Scenario(q) ==
